@@ -66,6 +66,9 @@ def run(ck):
     ck.rule("R5", "Python-level ** and << on integers taken from expressions are bounded", floor=2)
     ck.rule("R7", "a Python-level sum/product/shift of operand constants re-encoded with ExprInt is not used where wrapping modulo 2^size changes the value (shift/rotate counts, division, comparison)", floor=1)
     ck.rule("R6", "pass loop stops on class change; enable_passes clears the cache", floor=3)
+    ck.rule("R9", "explicit flag formulas: carry / overflow of a + b, a - b and their with-carry siblings (shared with C03-R5)", floor=8)
+    from rules._composites import flag_formula_rules
+    flag_formula_rules(ck, "R9", "miasm/expression/simplifications_explicit.py")
     ck.rule("R8", "two constants fused into one ExprInt are concatenated at the low part's width and the result has the sum of both widths", floor=1)
 
     tables = pass_tables(ck)
